@@ -77,7 +77,7 @@ MUTANTS = [
     ('C01', 'supp/nast.py', r"self\.make_flow\('while-else', \[skipped\]\)", "self.make_flow('while-else', [cur])", 'C01-R5'),
     ('C09', 'supp/module.py', r"        if not exists\(self\.filename\):[^\n]*\n            return True\n\n", "", 'C09-R5'),
     ('C09', 'supp/module.py', r"        if not exists\(self\.filename\):([^\n]*)\n            return True\n", r"        if not exists(self.filename):\1\n            return False\n", 'C09-R5'),
-    ('C05', 'supp/scope.py', r" and self\.scope is not self\.scope\.top\n", "\n", 'C05-R3'),
+    ('C05', 'supp/nast.py', r"        if self\.flow\.scope is not self\.top:[^\n]*\n            self\.flow\.scope\.globals\.update", "        if True:\n            self.flow.scope.globals.update", 'C05-R3'),
     # from package import name: attribute first
     ('C06', 'supp/name.py', r"        if value is None and self\.mname:\n            if self\.module\.strip", "        if self.mname:\n            if self.module.strip", 'C06-R3'),
     # positions of import bindings from the alias nodes (2e9ce22)
